@@ -24,12 +24,14 @@ def handle_of(p):
     return _NEXT[0]
 
 
+FLOOR_HINTS = ()   # candidate integer parts for `(int) x` of a symbolic double inside bridged calls (each decided by the solver)
 OMP_NVT = None     # when set (C10 part B), every interpreter created through the bridge / ccall runs clang's -fopenmp IR in footprint mode
 
 
 def new_interp(cfile, hybrid=False):
     m = module(cfile, openmp=OMP_NVT is not None)
     it = Interp(m, hybrid=hybrid)
+    it.floor_hints = list(FLOOR_HINTS)
     if OMP_NVT is not None:
         from . import omp
         omp.attach(it, OMP_NVT)
@@ -84,6 +86,12 @@ def to_arg(interp, a, name="arg"):
     if a is None:
         return Ptr(REAL, 0)
     if isinstance(a, ctypes.Array):
+        # arrays of numbers built by the wrapper (e.g. the extra kernel arguments) become exactly sized read-only objects,
+        # so that a C read past their end is an out-of-bounds access instead of a silent read of neighbouring memory
+        if a._type_ is ctypes.c_double:
+            return Ptr(Obj(name + ".ctypes_doubles", [_dbl(v) for v in a], 8, "buf", False), 0)
+        if a._type_ in (ctypes.c_int, ctypes.c_int32):
+            return Ptr(Obj(name + ".ctypes_ints", [int(v) for v in a], 4, "buf", False), 0)
         return Ptr(REAL, ctypes.addressof(a))
     if isinstance(a, ctypes._Pointer):
         return Ptr(REAL, ctypes.cast(a, ctypes.c_void_p).value or 0)
